@@ -159,6 +159,9 @@ def family_pil(rng):
             pil.append(["".join(rng.choice(aas) for _ in range(7)) + "TK", gens.fr(rng.choice([0.001, 0.004])), ps])
     for f in range(nfam):
         iso = [f"F{f}I{i}" for i in range(rng.choice([2, 3, 3, 4]))]
+        if rng.random() < 0.35:
+            # names that differ in letter case only (human ACTB / mouse Actb at gene level), one name a prefix of another
+            iso = [f"F{f}actb", f"F{f}ACTB", f"F{f}Actb", f"F{f}ACTB1"][:len(iso)]
         rng.shuffle(iso)
         pairs = [(a, b) for i, a in enumerate(iso) for b in iso[i + 1:]]
         for j, (a, b) in enumerate(pairs):
